@@ -114,4 +114,17 @@ theorem row_p3 (n : Bytes) (v : Q) : sprintfA (Facts.printFormats.getD 3 []) [.s
   unfold sprintfA; rw [parse_p3]; simp [render]
 theorem print_precision : Facts.printPrecision = 2 := by decide
 
+/-! `formatValue` -/
+theorem parse_v0 : parseFmt (Facts.valueFormats.getD 0 [])
+    = [.lit 27, .lit 91, .lit 51, .lit 49, .lit 109, .flt 10 2, .lit 27, .lit 91, .lit 48, .lit 109] := by decide +kernel
+theorem parse_v1 : parseFmt (Facts.valueFormats.getD 1 [])
+    = [.lit 27, .lit 91, .lit 51, .lit 50, .lit 109, .flt 10 2, .lit 27, .lit 91, .lit 48, .lit 109] := by decide +kernel
+theorem parse_v2 : parseFmt (Facts.valueFormats.getD 2 []) = [.flt 10 2] := by decide +kernel
+theorem val_v0 (v : Q) : sprintfA (Facts.valueFormats.getD 0 []) [.q v] = red ++ Num.fmtFixedW 10 2 v ++ reset := by
+  unfold sprintfA; rw [parse_v0]; simp [render, red, reset, esc]
+theorem val_v1 (v : Q) : sprintfA (Facts.valueFormats.getD 1 []) [.q v] = green ++ Num.fmtFixedW 10 2 v ++ reset := by
+  unfold sprintfA; rw [parse_v1]; simp [render, green, reset, esc]
+theorem val_v2 (v : Q) : sprintfA (Facts.valueFormats.getD 2 []) [.q v] = Num.fmtFixedW 10 2 v := by
+  unfold sprintfA; rw [parse_v2]; simp [render]
+
 end Hrano.Tmpl
